@@ -32,10 +32,10 @@ CHECKS = {
             "c06_gate_iff (forward iff the four conditions; never a panic, for a quoted symbol), c06_refusal_inert, c06_forward_once, c06_delivered_any_client. Every run drives send_order through an eager and a lazily polled client and compares what reached the exchange.",
             TB + "'well-formed' is read as 'for a symbol with a last-seen quote' (the code unwraps the quote; modelled as Panic, excluded by premise). The reqwest Client is represented by an in-process lazy client.", "3/C06"),
     "C07": ("Coq proof: clock lemma by induction over all interleavings, generic in the exchange; loop termination with fuel + step-wise correspondence with shadow exchange",
-            "c07_tick, c07_clock_after_history, c07_now, c07_fetch_quotes, c07_loop_count, c07_loop_terminates for both services (same generic model); the datasets are those Penelope::add_quote builds (Model/Penelope.v): c07_dataset_dates (distinct dates in order of first appearance, for every loading script), c07_dataset_dates_increasing, c07_dataset_invariant, c07_dataset_rows_own_date, c07_dataset_shows_last_added. Every run also compares the model's load of each scenario's script with what the real Penelope shows.",
+            "c07_tick, c07_clock_after_history, c07_now, c07_fetch_quotes, c07_loop_count, c07_loop_terminates for both services (same generic model); the datasets are those Penelope::add_quote builds (Model/Penelope.v): c07_dataset_dates (distinct dates in order of first appearance, for every loading script), c07_dataset_dates_increasing, c07_dataset_invariant, c07_dataset_rows_own_date, c07_dataset_shows_last_added. Every run also compares the model's load of each scenario's script with what the real Penelope shows, and drives the crate's own uistv1_client::TestClient through whole histories on several backtests in LOCKSTEP with the oracle-free model (Penelope script -> AppState::single -> UistClient trait; no re-synchronisation, no sort oracle).",
             TB + "Mutex atomicity of handlers is read off the code.", "3/C07, 8.2"),
     "C08": ("Coq proof: id freshness invariant and noninterference by simulation over all interleavings, generic in the exchange + step-wise correspondence",
-            "c08_fresh_ids, c08_create_spec, c08_step_frame, c08_step_local, c08_noninterference, c08_unknown_backtest/_dataset.",
+            "c08_fresh_ids, c08_create_spec, c08_step_frame, c08_step_local, c08_noninterference, c08_unknown_backtest/_dataset. Besides the step-wise comparison of AppState (both services), every run drives the crate's own uistv1_client::TestClient over several backtests in lockstep with the oracle-free model; when that breaks, the isolation clause is read directly (the same history with the other backtests' requests removed must give the same responses).",
             TB + "Mutex atomicity of handlers is read off the code; HTTP 400 mapping is C20's handler layer.", "3/C08"),
     "C09": ("Coq proof: Failed-iff at R (loop invariant showing the second failure exit unreachable), absorbing for every Num F + step-wise correspondence at constructed boundaries",
             "c09_failed_iff, c09_absorbing, c09_failed_refuses, c09_failed_still_books, c09_only_reconciliation_fails.",
@@ -43,9 +43,9 @@ CHECKS = {
     "C10": ("Coq proof at R: loop invariant over the holdings in any iteration order + step-wise correspondence",
             "c10_sufficient, c10_rebalance_sufficient (success => market sells within holdings worth >= request; failure => nothing queued), for whole-share long portfolios and every holdings order.",
             TB + R_AX + "ceil/division rounding in floats is outside the theorem.", "3/C10"),
-    "C11": ("Coq proof at R (sums, permutation invariance, cost-basis fold vs an independent 'since last flat' spec) + bit-exact correspondence of all getters",
-            "c11_total, c11_liq_le_total, c11_liq_eq_total_without_costs (every Num F), c11_cost_basis, c11_profit; last-seen-bid: the quote map is updated only from the row fetched at the clock date (with C07).",
-            TB + R_AX, "3/C11"),
+    "C11": ("Coq proof at R (sums, permutation invariance, cost-basis fold vs an independent 'since last flat' spec); stored-quote invariant through the composed system by induction over updates (every Num F) + bit-exact correspondence of all getters",
+            "c11_total, c11_liq_le_total, c11_liq_eq_total_without_costs (every Num F), c11_cost_basis, c11_profit; the first sentence as theorems about the full composition for every Num F (Props/C11quotes.v): from a fresh start, after any number of updates every stored quote is latest_upto at the date index the clock shows (c11q_after_updates; a gap keeps the previous quote), never dated after the clock (c11q_never_later), the most recent quoting row (c11q_most_recent), and the position is valued at quantity x that bid (c11q_valuation).",
+            TB + R_AX, "3/C11, 8.2"),
     "C12": ("Coq proof at R: closed form of the loop vs an independently written per-symbol relation; permutation invariance + bit-exact correspondence",
             "c12_per_symbol (orders = exactly the wanted ones), c12_one_order_per_quoted_target, c12_sells_first_shape, c12_order_independent for every iteration order of weights and holdings.",
             TB + R_AX, "3/C12"),
